@@ -6,6 +6,7 @@
 //! job aborts or hangs (the driver then records `abort`/`hang` for that job and restarts after it).
 
 mod capture;
+mod chunk;
 mod run;
 mod session;
 mod syntax;
@@ -54,6 +55,7 @@ fn main() {
         let result = match cmd {
             "run" => run::run_job(&job),
             "session" => session::session_job(&job),
+            "chunk" => chunk::chunk_job(&job),
             "compile" => syntax::compile_job(&job),
             "parse" => syntax::parse_job(&job),
             "format" => syntax::format_job(&job),
